@@ -14,12 +14,14 @@ structure App (s s' : State) (d : List UInt8) : Prop where
   cur : s'.cursor = s.cursor + d.length
   bytes : BytesAt s'.octets s.cursor d
   mode : s'.mode = s.mode
+  sect : s'.sect = s.sect
 
-theorem App.refl (s : State) : App s s [] := ⟨Ext.refl s, by simp, fun i hi => by simp at hi, rfl⟩
+theorem App.refl (s : State) : App s s [] := ⟨Ext.refl s, by simp, (fun i hi => by simp at hi), rfl, rfl⟩
 
 theorem App.trans {a b c : State} {d1 d2 : List UInt8} (h1 : App a b d1) (h2 : App b c d2) :
     App a c (d1 ++ d2) := by
-  refine ⟨Ext.trans h1.ext h2.ext, by rw [h2.cur, h1.cur]; simp; omega, ?_, by rw [h2.mode, h1.mode]⟩
+  refine ⟨Ext.trans h1.ext h2.ext, by rw [h2.cur, h1.cur]; simp; omega, ?_, by rw [h2.mode, h1.mode],
+    by rw [h2.sect, h1.sect]⟩
   intro i hi
   by_cases hlt : i < d1.length
   · rw [List.getElem?_append_left hlt, h2.ext.pre _ (by rw [h1.cur]; omega)]
@@ -72,7 +74,7 @@ theorem wr_tryPush (d : List UInt8) : Wr d (tryPush d) := by
       · rename_i h1 h2 h3
         rw [if_neg h1, if_pos h2, if_pos h3] at hf
         cases h
-        exact ⟨hf, rfl, bytesAt_writeAt _ _ _ h3, rfl⟩
+        exact ⟨hf, rfl, bytesAt_writeAt _ _ _ h3, rfl, rfl⟩
       · cases h
     · cases h
 
@@ -92,7 +94,7 @@ theorem wr_writeUncompressedName (n : WName) : Wr n.wire (writeUncompressedName 
       · rw [if_pos h3] at h
         simp only [ghostLabels, M.modify_apply, M.pure_apply] at h
         cases h
-        exact ⟨e, rfl, bytesAt_writeAt _ _ _ h3, rfl⟩
+        exact ⟨e, rfl, bytesAt_writeAt _ _ _ h3, rfl, rfl⟩
       · rw [if_neg h3] at h; cases h
     · rw [if_neg h2] at h; cases h
 
@@ -111,8 +113,8 @@ theorem wr_writeHintedName (hint : Hint) (n : WName) : Wr n.wire (writeHintedNam
   exact wr_writeUncompressedName n s hm p s' h
 
 theorem app_fields {s s' : State} (ho : s'.octets = s.octets) (hc : s'.cursor = s.cursor)
-    (e : Ext s s') (hm : s'.mode = s.mode) : App s s' [] :=
-  ⟨e, by simp [hc], fun i hi => by simp at hi, hm⟩
+    (e : Ext s s') (hm : s'.mode = s.mode) (hs : s'.sect = s.sect := by rfl) : App s s' [] :=
+  ⟨e, by simp [hc], (fun i hi => by simp at hi), hm, hs⟩
 
 theorem wr_setCtx (c : NameCtx) : Wr [] (setCtx c) :=
   wr_modify _ fun s => app_fields rfl rfl (frame_setCtx c s) rfl
@@ -124,7 +126,10 @@ theorem wr_hvPush (p : Option Nat) : Wr [] (hvPush p) := by
   unfold hvPush at h
   simp only [M.modify_apply] at h
   cases h
-  refine app_fields ?_ ?_ e ?_
+  refine app_fields ?_ ?_ e ?_ ?_
+  · split
+    · split <;> rfl
+    · rfl
   · split
     · split <;> rfl
     · rfl
@@ -297,7 +302,7 @@ theorem wr_rdataBlock (cls ty : Nat) (rd : List UInt8) :
       · rw [if_pos hb] at h e03
         cases h
         have hl2 : ∀ x, (u16be x).length = 2 := fun _ => rfl
-        refine ⟨e03, ?_, ?_, a2.mode⟩
+        refine ⟨e03, ?_, ?_, a2.mode, a2.sect⟩
         · show s2.cursor = s.cursor + (u16be (rd.length % 65536) ++ rd).length
           rw [List.length_append, hl2]; omega
         intro i hi
